@@ -585,6 +585,16 @@ example : (List.range 5).map (fun k => (runHist cfgFixed threeBytes [.ok 1, .wri
 example : (List.range 5).map (fun k => (runHist cfgFixed threeBytes [.ok 1, .flushFault 1 k] init).isSome) =
     [true, true, true, false, false] := by decide
 
+/-- a write timeout with the peer alive (the collector stalls, nobody closes): the flush fails after one
+    byte; the connection is not closed, but its writer keeps the error — a second send cannot write
+    to it (the history with two flush faults in a row on one connection is not a history of the client:
+    this is what the driver answers `reject` with when a client resets its writer), it fails on the
+    sticky error, closes, and the send after that reconnects; connection 0 ends with the fragment -/
+example : runHist cfgFixed threeBytes [.ok 1, .flushFault 1 1, .flushFault 1 1] init = none := by decide
+example : (runHist cfgFixed threeBytes [.ok 1, .flushFault 1 1, .writeFault 1 0, .ok 1] init).map
+      (fun s => ((List.range s.next).map (fun c => (s.delivered c, s.log.get c)), s.results)) =
+    some ([([10, 0, 1, 10], [1, 2]), ([10, 0, 4], [4])], [(4, true), (3, false), (2, false), (1, true)]) := by decide
+
 /-- queue mode, repaired client: capacity 2, two packs accepted, the third refused (C11: full), the
     capacity raised, a fourth accepted; process() connects and sends under the lock; ApplyConfig
     reconnects in between (it has to wait for the lock); idle time; everything accepted arrives, in order -/
